@@ -54,6 +54,13 @@ fn main() {
         println!("{out}");
         return;
     }
+    if args.len() >= 2 && args[1] == "dump_ext" {
+        let seed: u64 = arg(&args, "--seed").and_then(|s| s.parse().ok()).unwrap_or(1);
+        let n: usize = arg(&args, "--n").and_then(|s| s.parse().ok()).unwrap_or(10);
+        let out = PathBuf::from(arg(&args, "--out").unwrap_or_else(|| "out".into()));
+        suites::dump_ext(seed, n, &out);
+        return;
+    }
     if args.len() < 3 || args[1] != "gen" {
         eprintln!("usage: verif-harness gen <suite> --seed S --n N --out DIR [--corpus DIR]");
         std::process::exit(2);
